@@ -2,7 +2,7 @@
     duplication and batching.  Statements only. *)
 From Coq Require Import List NArith Permutation.
 From MOC.Base Require Import RangeSet.
-From MOC.Model Require Import Qty Ops1D Build BuilderSM BuilderSM2.
+From MOC.Model Require Import Qty Ops1D Build BuilderSM BuilderSM2 KWay.
 Import ListNotations.
 Open Scope N_scope.
 
@@ -102,6 +102,13 @@ Example C06_nonvacuous_builder :
   cells_to_ranges [3; 3; 4; 7; 8; 8; 9] = [(3, 5); (7, 10)].
 Proof. repeat split; vm_compute; reflexivity. Qed.
 
+(** the n-ary operators as written (operands combined by groups of four, recursion on the
+    stream of group results until at most three remain) equal the left fold of the binary
+    operator, depth included, for and / or / xor and every number of valid operands *)
+Theorem C06_kway_groups_of_four_equal_fold : forall o q w, o <> OMinus ->
+  forall l, AllValid q w l -> kway4 o q w (length l) l = kway o q w l.
+Proof. exact kway4_eq_spec. Qed.
+
 Print Assumptions C06_build_covers_degraded_union.
 Print Assumptions C06_build_is_valid.
 Print Assumptions C06_build_depends_on_set_only.
@@ -117,3 +124,4 @@ Print Assumptions C06_fixed_depth_builder_state_machine.
 Print Assumptions C06_buffer_fusion_exact.
 Print Assumptions C06_range_builder_state_machine.
 Print Assumptions C06_merge_sorted_exact.
+Print Assumptions C06_kway_groups_of_four_equal_fold.
